@@ -46,6 +46,7 @@ type c06Scenario struct {
 	Tasks      [][]c06Req  `json:"tasks"`
 	Writer     bool        `json:"writer_replaces_table"`
 	Stick      int         `json:"stick"`
+	BadHost    bool        `json:"table_has_a_route_whose_host_is_not_a_valid_glob"`
 	Tables     []string    `json:"-"`
 	TableTexts []string    `json:"tables,omitempty"`
 	Reqs       int         `json:"requests"`
@@ -76,6 +77,12 @@ func c06TableText(sc *c06Scenario, v int) string {
 	}
 	for i := 0; i < sc.Equal; i++ {
 		fmt.Fprintf(&b, "route add e /e http://e%d-v%d:80/\n", i, v)
+	}
+	// a less specific pattern that matches the same hosts: lookups then walk several host patterns
+	fmt.Fprintf(&b, "route add gall *.example.com/zzz http://gall-v%d:80/\n", v)
+	if sc.BadHost {
+		// accepted by NewTable; can never match a request and must not disturb the others
+		b.WriteString("route add broken [a/ http://broken:1/\n")
 	}
 	b.WriteString("route add rd /rd https://redir.example.com$path opts \"redirect=301\"\n")
 	b.WriteString("route add rh old.example.com/ https://new.example.com$path opts \"redirect=302\"\n")
@@ -111,7 +118,7 @@ func c06Gen(g *simcore.Tape, thorough bool) *c06Scenario {
 	// hot mode: every task hammers one multi-target route so that the ring wraps under contention
 	hot := ""
 	if g.Chance(35) {
-		hot = simcore.Pick(g, []string{"e", "w", "rhost", "rd"})
+		hot = simcore.Pick(g, []string{"e", "w", "rhost", "rd", "glob", "glob"})
 	}
 	for t := 0; t < ntasks; t++ {
 		n := g.Range(1, 3)
@@ -160,6 +167,7 @@ func c06Gen(g *simcore.Tape, thorough bool) *c06Scenario {
 		sc.Tasks = append(sc.Tasks, reqs)
 	}
 	sc.Writer = g.Chance(30)
+	sc.BadHost = g.Chance(25)
 	sc.Stick = []int{1, 1, 3, 8}[g.Intn(4)]
 	return sc
 }
@@ -219,7 +227,11 @@ func runC06(r *simcore.Run) {
 	}
 	stats := &proxy.HttpStatsHandler{Noroute: metrics.DiscardProvider{}.NewCounter("notfound")}
 
-	// sequential expectation on private copies of each table version
+	// sequential expectation on private copies of each table version. It runs as ONE task before any yield site is
+	// active: the reference is sequential, but if it blocks on a lock that is never released this is a stuck lookup,
+	// not a hung harness.
+	d := simcore.NewDriver(r)
+	d.Stick = sc.Stick
 	var tables []route.Table
 	expect := make([]map[c06Req]c06Outcome, nver)
 	for v := 0; v < nver; v++ {
@@ -232,27 +244,41 @@ func runC06(r *simcore.Run) {
 		}
 		tables = append(tables, shared)
 		expect[v] = map[c06Req]c06Outcome{}
-		for _, reqs := range sc.Tasks {
-			for _, rq := range reqs {
-				if _, ok := expect[v][rq]; ok {
-					continue
+	}
+	d.TraceTasks = false
+	d.Sim.Spawn("reference", func() {
+		for v := 0; v < nver; v++ {
+			for _, reqs := range sc.Tasks {
+				for _, rq := range reqs {
+					if _, ok := expect[v][rq]; ok {
+						continue
+					}
+					// every expectation is computed alone: fresh private table, fresh cache, fresh proxy
+					private, _ := route.NewTable(bytes.NewBufferString(sc.TableTexts[v]))
+					cfg := c06Config(sc)
+					gc := route.NewGlobCache(1000)
+					pp := &proxy.HTTPProxy{Config: cfg.Proxy, Transport: c06Stub{}, Stats: *stats,
+						Lookup: func(req *http.Request) *route.Target {
+							return private.Lookup(req, "", route.Picker["rr"], route.Matcher["prefix"], gc, false)
+						}}
+					expect[v][rq] = c06Serve(pp, rq)
 				}
-				// every expectation is computed alone: fresh private table, fresh cache, fresh proxy
-				private, _ := route.NewTable(bytes.NewBufferString(text))
-				cfg := c06Config(sc)
-				gc := route.NewGlobCache(1000)
-				pp := &proxy.HTTPProxy{Config: cfg.Proxy, Transport: c06Stub{}, Stats: *stats,
-					Lookup: func(req *http.Request) *route.Target {
-						return private.Lookup(req, "", route.Picker["rr"], route.Matcher["prefix"], gc, false)
-					}}
-				expect[v][rq] = c06Serve(pp, rq)
 			}
 		}
+	})
+	if !d.Run(1000, func() bool { return d.Sim.Pending() == 0 }) {
+		states := d.Sim.TaskStates()
+		if len(states) == 1 && strings.Contains(states[0], " lock-wait ") {
+			r.Fail("lookup-stuck", "lock-never-released", "a single request alone waits forever for a lock nobody will release: %v", states)
+		} else {
+			r.Trouble("the sequential reference did not finish: %v", states)
+		}
+		d.Finish()
+		return
 	}
+	d.TraceTasks = true
 	r.SetSample(sc)
 
-	d := simcore.NewDriver(r)
-	d.Stick = sc.Stick
 	d.Sim.Activate("route", "proxy", "main")
 	route.SetTable(tables[0])
 	p := newHTTPProxy(c06Config(sc), stats)
@@ -291,7 +317,19 @@ func runC06(r *simcore.Run) {
 	}
 	done := d.Run(200000, func() bool { return d.Sim.Pending() == 0 })
 	if !done {
-		r.Trouble("tasks did not finish: %v", d.Sim.TaskStates())
+		// nothing is enabled any more: if every remaining task waits for a lock, lookups are stuck for good
+		states := d.Sim.TaskStates()
+		stuck := len(states) > 0
+		for _, st := range states {
+			if !strings.Contains(st, " lock-wait ") {
+				stuck = false
+			}
+		}
+		if stuck && len(d.Events()) == 0 {
+			r.Fail("lookup-stuck", "lock-never-released", "lookups wait forever for a lock nobody will release: %v", states)
+		} else {
+			r.Trouble("tasks did not finish: %v", states)
+		}
 	}
 	d.Invariant()
 	if len(caches) != 1 {
